@@ -284,13 +284,34 @@ func (sub *Printer) chainInto(n *Node) int {
 // call argument).  An else-less chain there is ambiguous with the list's own
 // commas, so it is always parenthesised.
 func (p *Printer) elem(n *Node) {
-	if endsInChain(n) {
+	p.elemBefore(n, &Node{K: "tern"})
+}
+
+// elemBefore prints list member n that is followed by member next (nil: last member).  A chain may
+// stand bare when what follows cannot be read as a further "cond ? value" arm.
+func (p *Printer) elemBefore(n, next *Node) {
+	if endsInChain(n) && (startsTernaryLike(next) || p.Z.next(3) == 0) {
 		p.w("(")
 		p.raw(n)
 		p.w(")")
 		return
 	}
 	p.node(n, lvAssign)
+}
+
+// startsTernaryLike: the printed form of n begins with `expr ?` at its top level.
+func startsTernaryLike(n *Node) bool {
+	for n != nil {
+		switch n.K {
+		case "tern", "chain":
+			return true
+		case "slice":
+			n = n.Kids[0]
+		default:
+			return false
+		}
+	}
+	return false
 }
 
 // endsInChain: the element is an else-less chain or an assignment whose right-hand side is one
@@ -320,7 +341,11 @@ func (p *Printer) args(args []*Node) {
 			p.w(",")
 			p.sp(" ")
 		}
-		p.elem(a)
+		var next *Node
+		if i+1 < len(args) {
+			next = args[i+1]
+		}
+		p.elemBefore(a, next)
 		if i == 0 || i == len(args)-1 {
 			p.sp("") // func_invoke2 <- '(' sp exprRoot sp (',' sp exprRoot)* sp ')'
 		}
@@ -502,7 +527,11 @@ func (p *Printer) raw(n *Node) {
 				p.w(",")
 				p.sp(" ")
 			}
-			p.elem(k)
+			var next *Node
+			if i+1 < len(n.Kids) {
+				next = n.Kids[i+1]
+			}
+			p.elemBefore(k, next)
 		}
 		p.w("]")
 	case "range":
@@ -534,7 +563,7 @@ func (p *Printer) raw(n *Node) {
 			}
 			p.w(":")
 			p.sp(" ")
-			p.elem(n.Kids[i+1])
+			p.elemBefore(n.Kids[i+1], nil) // the next member starts with a key, which is no ternary arm
 			p.sp("")
 		}
 		if n.Q == 1 && len(n.Kids) > 0 {
